@@ -109,6 +109,17 @@ PathOf(h, root, id) ==          \* <<TRUE, path>> or <<FALSE, <<>>>>
                 ELSE LET r == PathOf(h, es[i][2], id) IN IF r[1] THEN <<TRUE, <<es[i][1]>> \o r[2]>> ELSE <<FALSE, <<>>>>
          IN F[Len(es)]
 
+\* the path the copy's hooks can report: names as the BUILT-IN view of the original numbers / names them
+RECURSIVE PyPathOf(_, _, _)
+PyPathOf(h, root, id) ==
+    IF root = id THEN <<TRUE, <<>>>>
+    ELSE LET es == h[root].py \o SelectSeq(h[root].kids, LAMBDA e : \A i \in 1..Len(h[root].py) : h[root].py[i][2] # e[2])
+             F[i \in 0..Len(es)] ==
+                IF i = 0 THEN <<FALSE, <<>>>>
+                ELSE IF F[i-1][1] THEN F[i-1]
+                ELSE LET r == PyPathOf(h, es[i][2], id) IN IF r[1] THEN <<TRUE, <<es[i][1]>> \o r[2]>> ELSE <<FALSE, <<>>>>
+         IN F[Len(es)]
+
 ----------------------------------------------------------------------------
 Block == 25
 NBlocks == (Len(Traces) + Block - 1) \div Block
@@ -138,7 +149,7 @@ TStep ==
     /\ LET a    == last'.a
            src  == IF a = "Recreate" THEN stack'[Len(stack')].src ELSE Top.src
            cont == IsComposed(heap[src].n)
-           p    == PathOf(heap, oroot, src)[2]
+           p    == PyPathOf(heap, oroot, src)[2]
        IN IF cont /\ a \in {"Recreate", "RestoreState", "Attach"}
           THEN \* (a copy that raises leaves its partial objects unreachable: their paths cannot be logged, the order is not compared)
                LET match == T.st # "ok" \/ (l <= Len(T.ev) /\ T.ev[l].e = a /\ [i \in 1..Len(T.ev[l].path) |-> T.ev[l].path[i]] = p)
